@@ -181,7 +181,7 @@ def r10_5(rep, M, rid):
             rep.violation(rid, f"get_distances: `{norm(s)}`", f"`{tgt}` is not a copy: subtracting the radii in place also changes the raw "
                           "minimum-image distance matrix stored in the same record", M.where(fq, s))
         else:
-            rep.violation(rid, f"get_distances: `{norm(s)}`", f"the subtracted matrix is not r_i + r_j of get_radii (symmetric: {sym}, from get_radii: {from_radii})",
+            rep.violation(rid, f"get_distances: form of the radii correction `{norm(s)}`", f"the subtracted matrix is not r_i + r_j of get_radii (symmetric: {sym}, from get_radii: {from_radii})",
                           M.where(fq, s))
     # the tables are double precision: no narrowing conversion anywhere in get_distances
     narrow = []
@@ -257,12 +257,14 @@ def run(rep, ctx):
     with rep.guard("R10.4"):
         cxxrules.infinite_cutoff(rep, "R10.4")
     with rep.guard("R10.5"):
-        r10_5(rep, M, "R10.5")
+        from ..report import Filtered
+        # the exact arithmetic form of the radii correction matters to the consumers of the radii-corrected matrix (C01/C13/C17), not to the minimum-image tables
+        r10_5(Filtered(rep, lambda construct: "form of the radii correction" not in construct), M, "R10.5")
     rep.rule("R10.6", "no function keeps results in module-level state or functools caches (answers do not depend on what the process analysed before)")
     with rep.guard("R10.6"):
         from .. import symrules as _SRms
-        _SRms.module_state(rep, ctx.model, "R10.6")
-    rep.floor("R10.5", 8)
+        _SRms.module_state(rep, ctx.model, "R10.6", _SRms.GEOMETRY_SIDE)
+    rep.floor("R10.5", 7)
     rep.floor("R10.1", 14)
     rep.floor("R10.2", 10)
     rep.floor("R10.3", 20)
